@@ -151,6 +151,10 @@ def run_case(case, built=None, keep_obs=False):
     dyn = set()
     for r in refs.values():
         dyn |= r.dyn
+    if 'rec_two_scopes_static' in (prog0.get('tags') or []):
+        if faults or cancelled or any(outputs) or any(gen.dynamic_two_scopes(prog0, r) for r in refs.values()):
+            # with collaborator faults / cancellation the run may take other branches than the reference
+            dyn.add('rec_two_scopes')
     if obs.verdict:
         # a hang where the statement of a construct demands an error result also refutes that construct's property
         extra = set()
